@@ -824,6 +824,13 @@ func (m *c19Model) nilAtom(vars map[types.Object]bool, isNil bool) func(ast.Expr
 			}
 			return triU
 		}
+		if id, ok := e.(*ast.Ident); ok {
+			// a "found" flag tied to one of the states
+			if st := m.flagState(id); st != nil && vars[st] {
+				return c19TriOf(!isNil)
+			}
+			return triU
+		}
 		l, op, r, ok := cmpNorm(e)
 		if !ok || (op != token.EQL && op != token.NEQ) {
 			return triU
@@ -1131,6 +1138,9 @@ func c19M2(r *core.R) {
 								return false
 							}
 						}
+						if x == ast.Node(s.loop.Init) {
+							return false // a step in the init clause moves the start value, not the scan
+						}
 						if st := c19StepOf(info, x); st != nil {
 							steps = append(steps, st)
 						}
@@ -1173,14 +1183,37 @@ func c19M2(r *core.R) {
 						return
 					}
 					var start *c19Lin
+					// unit steps of v on the way into the loop (its init clause, or statements right before it in the same
+					// block) move the start value: `for id--; lo < id; id--` starts one below its argument
+					entryN, entryNet := 0, 0
+					ast.Inspect(sfi.Decl.Body, func(x ast.Node) bool {
+						if x == nil || x == ast.Node(s.loop.Body) || x == ast.Node(s.loop.Post) {
+							return false
+						}
+						if st := c19StepOf(info, x); st != nil && st.v == v && x.Pos() < s.loop.Body.Pos() && (x == ast.Node(s.loop.Init) || spar[x] == spar[s.loop]) {
+							entryN++
+							entryNet += st.dir
+						}
+						return true
+					})
+					insideW, _, _ := c19Writes(info, s.loop.Body, v)
+					if s.loop.Post != nil {
+						np, _, _ := c19Writes(info, s.loop.Post, v)
+						insideW += np
+					}
 					if c19IsParam(sfi, v) {
 						a := argForParam(info, sfi, s.fr.call, v)
 						if a == nil || s.fr.parent == nil {
 							startWhy = fmt.Sprintf("%s is a parameter whose argument is not visible", v.Name())
 							return
 						}
+						if n, _, _ := c19Writes(info, sfi.Decl.Body, v); n != insideW+entryN {
+							startWhy = fmt.Sprintf("the parameter %s is assigned before the scan loop other than by single steps: its value at the first probe is not decided", v.Name())
+							return
+						}
 						startSrc = src(fs, a)
 						start = rs0.lin(s.fr.parent, a, 0)
+						start.c += int64(entryNet)
 					} else {
 						n, def, defPos := c19Writes(info, sfi.Decl.Body, v)
 						if def == nil {
@@ -1193,7 +1226,7 @@ func c19M2(r *core.R) {
 							np, _, _ := c19Writes(info, s.loop.Post, v)
 							inside += np
 						}
-						if n != 1+inside {
+						if n != 1+inside+entryN {
 							startWhy = fmt.Sprintf("%s is assigned between its definition and the scan loop (or after it): its value at the first probe is not decided", v.Name())
 							return
 						}
@@ -1203,6 +1236,10 @@ func c19M2(r *core.R) {
 						}
 						startSrc = src(fs, def)
 						start = rs0.lin(s.fr, def, 0)
+						start.c += int64(entryNet)
+					}
+					if entryNet != 0 {
+						startSrc += fmt.Sprintf(" stepped by %+d on the way into the loop", entryNet)
 					}
 					d := c19NewLin()
 					d.add(start, 1)
@@ -1528,6 +1565,32 @@ func c19M2(r *core.R) {
 				}
 				r.OK(c, probeP.fetch.Pos(), "with the middle found (%s != nil) no neighbour scan is reachable before the state is classified (CFG walk with the nil tests decided)", mres.Name())
 			}()
+			// progress: the probe of the middle lies strictly between the bounds
+			func() {
+				c := "scans@" + fname + " progress"
+				rsm := &c19Resolver{m: m, keep: map[types.Object]bool{}, stale: stale}
+				gap, haveGap := int64(0), false
+				for _, f0 := range c19LoopStayFacts(outer) {
+					for _, f := range m.expandFact(root, f0.expr, f0.val, 0) {
+						if q := rsm.ineq(f.fr, f.expr, f.val); q != nil && len(q.terms) == 2 && q.terms[c19SeqKey(lo)] == 1 && q.terms[c19SeqKey(hi)] == -1 {
+							gap, haveGap = q.c, true
+						}
+					}
+				}
+				verdict, why := rsm.middleInside(midFr, midArg, lo, hi)
+				switch {
+				case !haveGap:
+					r.Unknown(c, outer.Pos(), "the distance the loop keeps between %s.SeqNum and %s.SeqNum is not a constant", lo.Name(), hi.Name())
+				case gap > -2:
+					r.Bad(c, outer.Pos(), "the loop goes on with %s.SeqNum - %s.SeqNum <= %d, i.e. also when no sequence number lies between the bounds: the midpoint is then a bound itself, its state is fetched again, the bounds do not move and the loop never ends (required: at least one number between them, `%s.SeqNum+1 < %s.SeqNum`)", lo.Name(), hi.Name(), gap, lo.Name(), hi.Name())
+				case verdict == "bad":
+					r.Bad(c, probeP.fetch.Pos(), "%s", why)
+				case verdict == "unknown":
+					r.Unknown(c, probeP.fetch.Pos(), "%s", why)
+				default:
+					r.OK(c, probeP.fetch.Pos(), "the loop goes on only with at least one sequence number between the bounds (%s.SeqNum - %s.SeqNum <= %d) and probes `%s`, the midpoint, which then lies strictly between them; the scans stay strictly inside too (bound obligations), the bounds are only replaced by the state probed (M6) and an iteration that finds nothing exits (exhausted): every iteration strictly shrinks the interval or ends the search", lo.Name(), hi.Name(), gap, why)
+				}
+			}()
 			// exhausted: nothing found anywhere between the bounds
 			func() {
 				c := "scans@" + fname + " exhausted"
@@ -1558,7 +1621,7 @@ func c19M2(r *core.R) {
 					for _, n := range b.Nodes {
 						if ret, ok := n.(*ast.ReturnStmt); ok && isSuccess(ret) {
 							anyRet = ret
-							if m.boundOf(ret.Results[0]) != hi && badRet == nil {
+							if !m.returnsBound(fi, ret.Results[0], hi) && badRet == nil {
 								badRet = ret
 							}
 						}
@@ -1588,7 +1651,7 @@ func c19M2(r *core.R) {
 					r.Unknown(c, outer.Pos(), "no `return <state>, …` is reachable from the binary-search loop in %s", fname)
 				case badRet != nil && badRet != exhaustedRet:
 					r.Bad(c, badRet.Pos(), "the search can end with `%s`, which is not the upper bound %s of `%s`. The loop keeps %s.Timestamp < t <= %s.Timestamp, so the first state at or after t is %s", src(fs, badRet), hi.Name(), src(fs, boundCond), lo.Name(), hi.Name(), hi.Name())
-				case exhaustedRet != nil && m.boundOf(exhaustedRet.Results[0]) != hi:
+				case exhaustedRet != nil && !m.returnsBound(fi, exhaustedRet.Results[0], hi):
 					r.Bad(c, exhaustedRet.Pos(), "with every state file strictly between %s and %s missing (all probes of one iteration find nothing) the search answers `%s`, but its normal exit answers %s. The loop keeps %s.Timestamp < t <= %s.Timestamp, so `%s` is not the first state at or after t (e.g. states {1,9,10}, t between 1 and 9: the answer must be 9)",
 						lo.Name(), hi.Name(), src(fs, exhaustedRet), hi.Name(), lo.Name(), hi.Name(), src(fs, exhaustedRet.Results[0]))
 				case update != nil:
@@ -1614,6 +1677,7 @@ func c19M2(r *core.R) {
 			}
 		}
 	}
+	c19M2Errors(r, m)
 	r.Stat("binary_search_loops", nsearch)
 	r.Stat("neighbour_scans", nscan)
 	if nscan == 0 {
